@@ -15,6 +15,7 @@ import DeapModel.Lemmas.C15Sweep3d
 import DeapModel.Lemmas.C15Gen7
 import DeapModel.Lemmas.C15HvCTop
 import DeapModel.Lemmas.C15HvCSearch
+import DeapModel.Lemmas.C15HvCFinal
 
 namespace C15
 open Hypervolume MeasureTheory
@@ -475,10 +476,22 @@ caches, `ignore` marks, `delete(_dom)` / `reinsert(_dom)`; base cases `dim == 2`
 Proved below: in EVERY dimension what `setup_cdllist` + `filter` leave (`hvC_setup_filter`) and the answer when at
 most one point survives (`hvC_le_one_point`); for one, two and three objectives the full statement
 `hvC_eq_hvCells_partial` (all three base cases of `hv_recursive`: `dim == 0`, `dim == 1`, and `dim == 2` — the sweep
-along the third coordinate with the 2-D staircase in the tree — entered with `bound[2] = -DBL_MAX`), hence totality
-there (`hvC_total_partial`).  NOT proved: four and more objectives (`hvC_eq_hvCells_Statement`,
-`hvC_total_Statement`) — the general case of `hv_recursive` and the 3-D base case RE-ENTERED with a finite
-`bound[2]` (cached `vol[2]` / `area[2]` / `domr`); there the tie is the correspondence run only. -/
+along the third coordinate with the 2-D staircase in the tree — entered with `bound[2] = -DBL_MAX`); and, since round 7,
+**`hvC_eq_hvCells`: the transcription returns the specification for EVERY number of objectives** (`hvC_eq_hvCells_dim4` is
+the instance the correspondence exercises most).  The proof is an induction over the levels of `hv_recursive` with the
+level contract `HvC.InvC` / `HvC.PostC` (`Lemmas/C15HvCInv.lean`): in every dimension `2 ≤ i ≤ k` the linked list is the
+static order restricted to the nodes present; the `area[i]` / `vol[i]` caches of every node strictly below `bound[i]` hold the
+hypervolume of the nodes at or before it (`CVc`); a mark `ignore = m ≥ 2` is witnessed by a present node that weakly
+dominates in the coordinates 0, 1 and precedes in the orders `2..m` (`IGc`; a marked node has `domr = x[2]`); and for a node
+strictly below `bound[2]` the cached `domr` is the third coordinate from which on it is beaten, in the staircase of the first
+two coordinates, by a present node below the bound — `≥ bound[2]` if there is none (`DMc`).  `hvC_dim3_reentry`: the 3-D base
+case entered with ANY `bound[2]` meets the contract (it rebuilds the staircase from the nodes with `domr ≥ bound[2]`, reads
+`vol[2]` / `area[2]` of the last node below the bound, and sweeps the rest; `Lemmas/C15HvCRe*`); `hvC_general_step`: the
+general case at level `j + 1` meets it if level `j` does (`delete` / `delete_dom`, `reinsert` / `reinsert_dom`, the bound
+rule of the deletion loop, the cached start, the promotion of marks; `Lemmas/C15HvCGen*`); `hvC_levels`: every level does.
+Totality (`hvC_total`) follows.  The hypothesis that the points lie at or below the reference point is not needed
+(`hvC_eq_hvCells_all`): `filter` drops the others, whose boxes are empty; the static context of the proof uses the points
+clamped to the reference (`HvC.clC`), which agree with the points themselves on every node that survives `filter`. -/
 
 /-- **`setup_cdllist` + `filter`, every dimension**: for every coordinate `j` the linked list of dimension `j` is a
 well-formed circular doubly linked list whose nodes are, in ascending order of coordinate `j`, exactly the input
@@ -574,7 +587,7 @@ example : ∀ p ∈ ([[1, 2, 0], [2, 0, 1], [0, 1, 3]] : List (List ℚ)), p.len
 
 /-- The full correctness statement of the transcribed C routine: for every dimension `d ≥ 1` and every list of
 points of that dimension at or below the reference (weakly dominating it), it returns the specification.
-NOT proved for `d ≥ 4` (general case of `hv_recursive`, re-entered 3-D base case): correspondence only. -/
+Proved: `hvC_eq_hvCells` below (round 7; until then only `hvC_eq_hvCells_partial`, `d ≤ 3`). -/
 def hvC_eq_hvCells_Statement : Prop :=
   ∀ (ref : List ℚ) (data : List (List ℚ)), 1 ≤ ref.length → (∀ p ∈ data, p.length = ref.length) →
     (∀ p ∈ data, ∀ j < ref.length, p.getD j 0 ≤ ref.getD j 0) →
@@ -613,8 +626,8 @@ example : 1 ≤ ([4, 4] : List ℚ).length ∧ ([4, 4] : List ℚ).length ≤ 3 
   rcases hp with rfl | rfl <;> rfl
 
 /-- Total-ness of the transcription: with the fuel `n + 2` that `fpliHvSt` supplies, no pointer-following loop runs
-out of fuel.  NOT proved for `d ≥ 4` (the loop l.855-857 of the re-entered 3-D base case terminates for a semantic
-reason: some node has `domr ≥ bound[2]`). -/
+out of fuel (the loop l.855-857 of the re-entered 3-D base case terminates for a semantic reason: some node has
+`domr ≥ bound[2]`).  Proved: `hvC_total` below (round 7; until then only `hvC_total_partial`, `d ≤ 3`). -/
 def hvC_total_Statement : Prop :=
   ∀ (ref : List ℚ) (data : List (List ℚ)), 1 ≤ ref.length → (∀ p ∈ data, p.length = ref.length) →
     ∃ v, HvC.fpliHv data ref = some v
@@ -630,6 +643,103 @@ example : 1 ≤ ([2] : List ℚ).length ∧ ([2] : List ℚ).length ≤ 3 ∧
   intro p hp
   simp only [List.mem_cons, List.not_mem_nil, or_false] at hp
   rcases hp with rfl | rfl | rfl | rfl <;> rfl
+
+/-! #### four and more objectives: the level contract of `hv_recursive` (`Lemmas/C15HvCInv.lean`) -/
+
+/-- **the 3-D base case RE-ENTERED** (`hv_recursive`, `dim == 2`, l.825-992, with ANY `bound[2]` and any sound marks):
+on every state that satisfies the level invariant `HvC.InvC … S 2 A` (list of dimension 2 = static order restricted to
+`A`; `area[2]` / `vol[2]` of the nodes strictly below `bound[2]` = area / volume of their prefixes; `domr` of those nodes
+valid; marks witnessed) with at least two nodes, it returns the 3-D hypervolume of `A` and re-establishes the invariant
+(`HvC.PostC`: same pointers, new `bound[2]` = third coordinate of the last node, all caches of level 2 valid, nothing
+written outside `A` / above level 2). -/
+theorem hvC_dim3_reentry (C : HvC.Cargo) (R : List ℚ) (d n : ℕ) (O : ℕ → List ℕ) (F : ℕ) (c : HvC.CCtx C R d n O)
+    (hF : n + 2 ≤ F) (S : HvC.St) (A : List ℕ) (inv : HvC.InvC C R d n O S 2 A) (h2 : 2 ≤ A.length) :
+    ∃ v S', HvC.hvRecursive C R F 2 A.length S = some (v, S') ∧ HvC.PostC C R d n O S S' 2 A v :=
+  HvC.dim3_ok C R d n O F c hF S A inv h2
+
+/-- the hypotheses of `hvC_dim3_reentry` are what `setup_cdllist` + `filter` establish for three objectives -/
+example : ∃ (C : HvC.Cargo) (R : List ℚ) (d n : ℕ) (O : ℕ → List ℕ) (S : HvC.St) (A : List ℕ),
+    HvC.CCtx C R d n O ∧ HvC.InvC C R d n O S 2 A ∧ 2 ≤ A.length := by
+  obtain ⟨O, G, c, inv, hlen, hG⟩ := HvC.ready_ctx [[1, 2, 0], [2, 0, 1], [0, 1, 2]] [3, 3, 3] (by decide)
+    (by intro p hp; simp only [List.mem_cons, List.not_mem_nil, or_false] at hp; rcases hp with rfl | rfl | rfl <;> rfl)
+  refine ⟨_, _, _, _, O, _, G, c, inv, ?_⟩
+  rw [hG]; decide
+
+/-- **the general case** (`hv_recursive`, `dim > 2`, l.710-819: reset of the marks below the level, deletion down to the
+bound with `delete` / `delete_dom`, the cached start or `c == 1`, reinsertion with `reinsert` / `reinsert_dom`, the
+recursive calls, the promotion of marks, `bound[dim]`) **at level `j + 1` meets the level contract if level `j` does.** -/
+theorem hvC_general_step (C : HvC.Cargo) (R : List ℚ) (d n : ℕ) (O : ℕ → List ℕ) (F j : ℕ) (c : HvC.CCtx C R d n O)
+    (hF : n + 2 ≤ F) (hj : 2 ≤ j) (hjd : j + 1 < d) (hrec : HvC.LevelOKC C R d n O F j) :
+    HvC.LevelOKC C R d n O F (j + 1) :=
+  HvC.generalStep_ok C R d n O F j c hF hj hjd hrec
+
+/-- **every level `2 ≤ k < d` of `hv_recursive` meets the level contract** (induction over the levels) -/
+theorem hvC_levels (C : HvC.Cargo) (R : List ℚ) (d n : ℕ) (O : ℕ → List ℕ) (F : ℕ) (c : HvC.CCtx C R d n O)
+    (hF : n + 2 ≤ F) (k : ℕ) (h2 : 2 ≤ k) (hk : k < d) : HvC.LevelOKC C R d n O F k :=
+  HvC.levels_ok c F hF k h2 hk
+
+/-- the hypotheses of `hvC_general_step` / `hvC_levels` are satisfiable (four objectives, level 2 is `hvC_dim3_reentry`) -/
+example : ∃ (C : HvC.Cargo) (R : List ℚ) (d n : ℕ) (O : ℕ → List ℕ) (F : ℕ),
+    HvC.CCtx C R d n O ∧ n + 2 ≤ F ∧ 2 + 1 < d ∧ HvC.LevelOKC C R d n O F 2 := by
+  obtain ⟨O, G, c, inv, hlen, hG⟩ := HvC.ready_ctx [[1, 2, 0, 1], [2, 0, 1, 0]] [3, 3, 3, 3] (by decide)
+    (by intro p hp; simp only [List.mem_cons, List.not_mem_nil, or_false] at hp; rcases hp with rfl | rfl <;> rfl)
+  exact ⟨_, _, _, _, O, 4, c, by decide, by decide, hvC_levels _ _ _ _ O 4 c (by decide) 2 (le_refl _) (by decide)⟩
+
+/-- **`hvC_eq_hvCells_dim4`**: four objectives, all inputs (also points beyond the reference point: `filter` drops them). -/
+theorem hvC_eq_hvCells_dim4 (data : List (List ℚ)) (r₀ r₁ r₂ r₃ : ℚ) (hlen : ∀ p ∈ data, p.length = 4) :
+    HvC.fpliHv data [r₀, r₁, r₂, r₃] = some (hvCells [r₀, r₁, r₂, r₃] data) :=
+  HvC.fpliHv_ge3_all data [r₀, r₁, r₂, r₃] (by simp) hlen
+
+example : ∀ p ∈ ([[1, 2, 0, 1], [2, 0, 1, 0], [0, 1, 3, 5]] : List (List ℚ)), p.length = 4 := by
+  intro p hp
+  simp only [List.mem_cons, List.not_mem_nil, or_false] at hp
+  rcases hp with rfl | rfl | rfl <;> rfl
+
+/-- **every number of objectives, ALL inputs**: for every reference point of dimension `d ≥ 1` and every list of points
+of that dimension — wherever they lie relative to the reference point — the transcribed C routine returns the
+specification (points not strictly below the reference are removed by `filter`, and their boxes are empty). -/
+theorem hvC_eq_hvCells_all (ref : List ℚ) (data : List (List ℚ)) (hd : 1 ≤ ref.length)
+    (hlen : ∀ p ∈ data, p.length = ref.length) : HvC.fpliHv data ref = some (hvCells ref data) := by
+  rcases Nat.lt_or_ge ref.length 4 with h | h
+  · exact hvC_eq_hvCells_partial ref data hd (by omega) hlen
+  · exact HvC.fpliHv_ge3_all data ref (by omega) hlen
+
+example : 1 ≤ ([4, 4, 4, 4, 4] : List ℚ).length ∧
+    (∀ p ∈ ([[0, 0, 1, 3, 0], [1, 2, 0, 3, 2], [1, 2, 0, 0, 7]] : List (List ℚ)), p.length = ([4, 4, 4, 4, 4] : List ℚ).length) := by
+  refine ⟨by simp, ?_⟩
+  intro p hp
+  simp only [List.mem_cons, List.not_mem_nil, or_false] at hp
+  rcases hp with rfl | rfl | rfl <;> rfl
+
+/-- **`hvC_eq_hvCells`: the transcribed C routine `fpli_hv` (`setup_cdllist`, `filter`, `hv_recursive` VARIANT 4 with its
+`bound` / `vol` / `area` / `domr` caches, `ignore` marks, `delete(_dom)` / `reinsert(_dom)`, and the AVL-tree sweep as
+3-D base case) returns the specification for EVERY number of objectives** — for every reference point of dimension
+`d ≥ 1` and every list of points of that dimension at or below it. -/
+theorem hvC_eq_hvCells : hvC_eq_hvCells_Statement := by
+  intro ref data hd hlen _
+  exact hvC_eq_hvCells_all ref data hd hlen
+
+/-- … hence the transcribed C routine returns the Lebesgue measure of the union of the boxes, in every dimension. -/
+theorem hvC_eq_volume (ref : List ℚ) (data : List (List ℚ)) (hd : 1 ≤ ref.length)
+    (hlen : ∀ p ∈ data, p.length = ref.length) :
+    ∃ v : ℚ, HvC.fpliHv data ref = some v ∧
+      volume (⋃ p ∈ data, Set.pi Set.univ
+        (fun j : Fin ref.length => Set.Ico (((p.getD j 0 : ℚ)) : ℝ) (((ref.getD j 0 : ℚ)) : ℝ))) = ENNReal.ofReal (v : ℝ) :=
+  ⟨hvCells ref data, hvC_eq_hvCells_all ref data hd hlen, hvCells_eq_volume ref data⟩
+
+example : 1 ≤ ([4, 4, 4, 4] : List ℚ).length ∧
+    (∀ p ∈ ([[1, 2, 3, 0], [2, 1, 0, 3]] : List (List ℚ)), p.length = ([4, 4, 4, 4] : List ℚ).length) := by
+  refine ⟨by simp, ?_⟩
+  intro p hp
+  simp only [List.mem_cons, List.not_mem_nil, or_false] at hp
+  rcases hp with rfl | rfl <;> rfl
+
+/-- **`hvC_total`: totality in every dimension** — with the fuel `n + 2` that `fpliHvSt` supplies, no pointer-following
+loop of the transcription runs out of fuel, on any input of any dimension (in particular the loop l.855-857 of the
+re-entered 3-D base case always finds a node with `domr ≥ bound[2]`). -/
+theorem hvC_total : hvC_total_Statement := by
+  intro ref data hd hlen
+  exact ⟨_, hvC_eq_hvCells_all ref data hd hlen⟩
 
 /-- **The abstraction of `avl_search_closest` is not observable.**  `HvC.Admissible C search` says what a descent
 through any search tree over the ordered sequence can answer: a neighbour of the insertion position together with
